@@ -163,5 +163,17 @@ CLAIMS = {
     note="Partial: the eigen/tolerance-based parts of cbcheck are outside what a contract on this code can decide. Trusted: sympy, symbolic shims. "
          "cbtf precondition from its code (Craig-Bampton form, diagonal q-q blocks). Sizes fixed, values symbolic. Floats are reals.",
     technique="real functions executed on symbolic inputs against rigid-body/unit-scaling/permutation specifications (sympy identities); exhaustive small-scope permutations; bounded float check for the pandas part"),
+ "C14": dict(
+    text="Proved with the real functions on symbolic inputs (sympy): n2p.rbgeom gives [[I,-(p-ref)x],[0,I]] per grid for a reference given as xyz, as a grid "
+         "index or omitted, and rbmove is reference-point consistent (rbgeom(g,old)@rbgeom(old,new)==rbgeom(g,new)); getcoordinates followed by "
+         "_get_loc_a_basic returns the same basic point for rectangular, cylindrical and spherical systems (symbolic origin, exact rational rotation) for "
+         "generic points and for the special positions x=0 (both signs), y=0 (both signs), z=0, x=y where a formula that divides by cos/sin of the azimuth "
+         "would produce 0/0, with R the Euclidean distance; mkusetcoordinfo's A-B-C construction through rectangular, cylindrical and spherical reference "
+         "systems gives T^T T=I, det +1, z along +(B-A), C in the x-z plane on the +x side, origin=A in basic. rbgeom_uset (cylindrical/spherical local "
+         "frames, q-set grids, scalar points), coordinate queries through random 3-deep chains, rbmove on USET tables and formrbe3: bounded float checks "
+         "against an independent geometric oracle with grids at 0/90/180/270/45/135 degrees.",
+    note="Partial. Trusted: sympy, math/NumPy shims. Floats are reals, angles in degrees. Not covered: replace_basic_cs (raises with the installed pandas on "
+         "the unchanged tree), rbcoords, build_coords ordering logic; rbgeom_uset and formrbe3 only bounded.",
+    technique="real functions executed on symbolic inputs (sympy trig/sqrt normal forms, exact special-position cases); orientation signs by continuity at a witness; bounded float oracle for the pandas-based functions"),
 }
 NOT_APPLICABLE = {}
